@@ -77,7 +77,7 @@ func (l *LineFilterPlanner) doLikeVal(likeOp string, val string) (sql.SQLConditi
 	if err != nil {
 		return nil, err
 	}
-	enqVal = strings.Trim(enqVal, `'`)
+	enqVal = strings.TrimPrefix(strings.TrimSuffix(enqVal, `'`), `'`)
 	enqVal = strings.Replace(enqVal, "%", "\\%", -1)
 	enqVal = strings.Replace(enqVal, "_", "\\_", -1)
 	return sql.Eq(
